@@ -563,7 +563,7 @@ func (c *control) dirJustify(colon, at bool, params []any) {
 			break
 		}
 	}
-	if padCnt-(len(segments)-1)*minpad < 0 {
+	if padCnt-(len(segments)-1)*minpad < 0 && 0 < colinc {
 		padCnt += (-padCnt / colinc) + colinc
 	}
 	segCnt := len(segments) - 1
@@ -1359,7 +1359,7 @@ func (c *control) dirT(colon, at bool, params []any) {
 			start++
 			from = len(c.out) - start
 		}
-		if from == from/colinc*colinc {
+		if colinc <= 0 || from == from/colinc*colinc {
 			target = from
 		} else {
 			target = from/colinc*colinc + colinc
@@ -1374,7 +1374,11 @@ func (c *control) dirT(colon, at bool, params []any) {
 		}
 		target = colnum * colinc
 		if target < from {
-			target = from/colinc*colinc + colinc
+			if colinc <= 0 {
+				target = from
+			} else {
+				target = from/colinc*colinc + colinc
+			}
 		}
 	}
 	target -= from
